@@ -237,10 +237,17 @@ class Pool:
         return "x%d" % rng.choice(self.g)
 
 
-def rand_mem(rng, pool, isa, disps=(0, 8, 16, -8, 24), allow_wb=True, allow_index=True):
+def rand_mem(rng, pool, isa, disps=(0, 8, 16, -8, 24), allow_wb=True, allow_index=True, allow_sym=True):
     base = pool.addr_reg(rng)
-    m = {"base": base, "index": None, "scale": 1, "disp": None, "pre": False, "post": False, "post_val": None}
+    m = {"base": base, "index": None, "scale": 1, "disp": None, "pre": False, "post": False, "post_val": None, "sym": None}
     r = rng.random()
+    if isa == "x86" and allow_sym and r < 0.08:
+        # symbolic displacement: a global / static array addressed relative to a register
+        m["sym"] = rng.choice(["gvar", "tbl_a", "tbl_b"])
+        if allow_index and rng.random() < 0.4:
+            m["index"] = pool.addr_reg(rng)
+            m["scale"] = rng.choice([1, 4, 8])
+        return m
     if isa == "x86":
         if r < 0.75:
             m["disp"] = rng.choice(disps)
@@ -269,6 +276,8 @@ def rand_mem(rng, pool, isa, disps=(0, 8, 16, -8, 24), allow_wb=True, allow_inde
 def mem_text(isa, m):
     if isa == "x86":
         s = "" if m["disp"] is None else str(m["disp"])
+        if m.get("sym"):
+            s = m["sym"]
         inner = "%" + m["base"]
         if m["index"]:
             inner += ",%" + m["index"] + (",%d" % m["scale"] if m["scale"] != 1 else "")
@@ -309,7 +318,12 @@ def instantiate(rng, isa, form, pool, mem=None, regs=None, imm=None):
             imm_val = imm if imm is not None else rng.choice([1, 2, 4, 8, 16, 24])
             texts.append(("$%d" if isa == "x86" else "#%d") % imm_val)
         else:
-            mm = mem if mem is not None else rand_mem(rng, pool, isa)
+            mm = dict(mem) if mem is not None else rand_mem(rng, pool, isa)
+            mm.setdefault("sym", None)
+            if mm["sym"]:
+                mm["disp"] = None  # a symbolic displacement is written without a numeric one (AST == text)
+            if isa == "aarch64" and mm["index"]:
+                mm["disp"] = None  # no base+index+displacement form on AArch64
             mems.append(dict(mm, role=o["role"]))
             texts.append(mem_text(isa, mm))
     regops = [o for o in form["ops"] if o["kind"] == "reg"]
@@ -361,7 +375,8 @@ def instantiate(rng, isa, form, pool, mem=None, regs=None, imm=None):
             mm = mems[mi]
             mi += 1
             if isa == "x86":
-                kinds.append({"k": "mem", "base": mm["base"], "index": mm["index"], "scale": mm["scale"], "disp": None if mm["disp"] is None else "imm"})
+                kinds.append({"k": "mem", "base": mm["base"], "index": mm["index"], "scale": mm["scale"],
+                              "disp": "id" if mm.get("sym") else (None if mm["disp"] is None else "imm")})
             else:
                 kinds.append({"k": "mem", "base": "x", "offset": None if (mm["disp"] is None or mm["index"]) else "imm", "index": "x" if mm["index"] else None,
                               "scale": mm["scale"], "pre": mm["pre"], "post": mm["post"]})
@@ -441,7 +456,7 @@ def ref_edges(kernel, flags=False):
 
 
 def same_operand(m1, m2):
-    return all(m1[k] == m2[k] for k in ("base", "index", "scale", "pre", "post", "post_val")) and (m1["disp"] or 0) == (m2["disp"] or 0) \
+    return all(m1.get(k) == m2.get(k) for k in ("base", "index", "scale", "pre", "post", "post_val", "sym")) and (m1["disp"] or 0) == (m2["disp"] or 0) \
         and (m1["disp"] is None) == (m2["disp"] is None)
 
 
@@ -480,7 +495,9 @@ def ref_store_load(kernel, isa):
                     verdict = None
                     lb = get(fam_of(isa, lm["base"]))
                     li = get(fam_of(isa, lm["index"])) if lm["index"] else None
-                    if (lm["index"] is None) != (sm["index"] is None):
+                    if (lm.get("sym") or None) != (sm.get("sym") or None):
+                        verdict = False  # different (or one-sided) symbolic displacement: not provably the same location
+                    elif (lm["index"] is None) != (sm["index"] is None):
                         verdict = False
                     elif lb is None or (lm["index"] and li is None):
                         verdict = False  # unknown change: no dependency expected
